@@ -58,6 +58,7 @@ def main():
                 t0 = time.time()
                 rc, o = sh(f"./check {p} --tier {tier}", cwd=VERIF, env=dict(os.environ, ODX_REPO=str(wt)), timeout=7200)
                 lines = [l for l in o.splitlines() if l.startswith("VIOLATION") or l.startswith("KNOWN-FINDING") or l.startswith("[")]
+                lines.sort(key=lambda l: not l.startswith("VIOLATION"))     # the record keeps 8 lines: violations first
                 checks[p] = {"exit": rc, "wall_s": round(time.time() - t0, 1), "lines": [l[:300] for l in lines[:8]], "via": "ODX_REPO=scratch worktree"}
         finally:
             sh(f"git -C {REPO} worktree remove --force {wt}")
@@ -73,6 +74,7 @@ def main():
                 t0 = time.time()
                 rc, o = sh(f"./check {p} --tier {tier}", cwd=VERIF, timeout=7200)
                 lines = [l for l in o.splitlines() if l.startswith("VIOLATION") or l.startswith("KNOWN-FINDING") or l.startswith("[")]
+                lines.sort(key=lambda l: not l.startswith("VIOLATION"))     # the record keeps 8 lines: violations first
                 checks[p] = {"exit": rc, "wall_s": round(time.time() - t0, 1), "lines": [l[:300] for l in lines[:8]]}
                 # keep one replay file as illustration
                 for l in lines:
